@@ -82,6 +82,10 @@ func runBase() string {
 		return baseDir
 	}
 	root := "/dev/shm"
+	if r := os.Getenv("VERIF_RUNROOT"); r != "" {
+		root = r // development aid (tools/hunt.sh): keep one run's directories apart
+		_ = os.MkdirAll(root, 0o755)
+	}
 	if st, err := os.Stat(root); err != nil || !st.IsDir() {
 		root = filepath.Join(os.Getenv("VERIF_ROOT"), ".run")
 	}
